@@ -52,4 +52,25 @@ R_InvQuad(A, B) ==
             Q == R_MatMul(R_Transpose(Bk), R_MatMul(R_Adj(Ak), Bk))
         IN [cols |-> [c \in 1..p |-> Q[c][c]], den |-> R_Det(Ak)]]
 R_IsPD(A) == \A k \in 1..Len(A) : R_Det([i \in 1..k |-> [j \in 1..k |-> A[i][j]]]) > 0
+
+\* ---- normalised rationals <<num, den>> (den > 0, gcd 1): used where the computation is iterative (pivoted Cholesky residuals) ----
+RECURSIVE Q_Gcd(_, _)
+Q_Gcd(a, b) == IF b = 0 THEN a ELSE Q_Gcd(b, a % b)
+Q_Norm(q) == LET a == q[1] b == q[2]
+                 s == IF b < 0 THEN -1 ELSE 1
+                 g == Q_Gcd(T_Abs(a), T_Abs(b))
+             IN IF a = 0 THEN <<0, 1>> ELSE <<(s * a) \div g, (s * b) \div g>>
+Q_Int(a) == <<a, 1>>
+Q_Add(x, y) == LET g == Q_Gcd(x[2], y[2]) IN Q_Norm(<<x[1] * (y[2] \div g) + y[1] * (x[2] \div g), (x[2] \div g) * y[2]>>)
+Q_Neg(x) == <<-x[1], x[2]>>
+Q_Sub(x, y) == Q_Add(x, Q_Neg(y))
+Q_Mul(x, y) == LET g1 == Q_Gcd(T_Abs(x[1]), y[2]) g2 == Q_Gcd(T_Abs(y[1]), x[2])
+               IN Q_Norm(<<(x[1] \div T_Max(1, g1)) * (y[1] \div T_Max(1, g2)), (x[2] \div T_Max(1, g2)) * (y[2] \div T_Max(1, g1))>>)
+Q_Div(x, y) == Q_Mul(x, IF y[1] < 0 THEN <<-y[2], -y[1]>> ELSE <<y[2], y[1]>>)      \* y # 0
+\* comparisons through the (gcd-reduced) difference: avoids the large cross products
+Q_Less(x, y) == Q_Add(y, <<-x[1], x[2]>>)[1] > 0
+Q_Leq(x, y) == Q_Add(y, <<-x[1], x[2]>>)[1] >= 0
+Q_IsZero(x) == x[1] = 0
+RECURSIVE Q_SumSeq(_)
+Q_SumSeq(s) == IF Len(s) = 0 THEN <<0, 1>> ELSE Q_Add(s[1], Q_SumSeq(Tail(s)))
 =============================================================================
